@@ -142,6 +142,35 @@ ISSUE_RULE = {"section_unique_ids": "document_unique_ids", "property_unique_ids"
 
 STEP_STREAMS = ("history", "locale", "reuse", "registry")
 
+# ---- strengthening round 5 ----------------------------------------------------------------------------------
+# how many issues of rank warning a document has and where the one error sits among them: objects that raise
+# warnings are created in front of ('lead') and / or behind ('trail') the Sections the injections go to; the
+# counts straddle the powers of ten and two a "first N issues" / "N issues per page" limit would sit at
+BULK_SHAPES = ("secs", "props", "unnamed", "card", "chain", "nested", "mixed")
+BULK_COUNTS = (1, 2, 9, 10, 11, 19, 20, 21, 22, 31, 32, 33, 49, 50, 51, 99, 100, 101, 255, 256, 300)
+BULK_COUNTS_THOROUGH = (499, 500, 512, 999, 1000, 1001)
+# how deep in the tree the Sections of the injections sit (below a chain of faultless Sections)
+DEPTHS = (1, 2, 3, 5, 10, 30)
+# where earlier data sits relative to the path handed in: at the path a save derives from it (odml.save adds
+# '.<backend>' to a name without a dot, RDFWriter adds the extension of the format) while the given path is
+# absent / holds other data; an existing file that is empty; files with names next to the target's are there
+# in all three (a save has no business with them)
+DERIVED_TARGETS = ("old_derived", "old_both", "old_empty")
+# 'old_self': the earlier data is the document itself - saved through the same entry point while it was still
+# fine, read back from that file where the format has a reader (it then knows the file it came from), edited,
+# saved again
+OPENABLE = ("absent", "old", "old_long", "keep", "old_self") + DERIVED_TARGETS
+# targets that cannot be written: a name longer than the file system takes (open refuses; modelled) and a
+# symbolic link to a device that takes no data (open succeeds, the data is refused when the file is flushed /
+# closed - the one way to see a write fail after open here; oracle-only: the link must stay what it was)
+LONG_NAME = "n" * 270
+UNWRITABLE_TARGETS = ("long_name", "link_devfull")
+# the path is a text relative to the working directory: plain, with a leading './', through '..'
+REL_PATHS = ("relative", "relative_dot", "relative_up")
+TEXT_PATHS = ("str",) + REL_PATHS
+# what is handed to the save in place of a Document (oracle-only; the frame clause alone is demanded)
+OBJ_KINDS = ("section", "detached_section", "property", "none", "str", "dict", "list_of_docs")
+
 
 class Obj(object):
     """An attribute object json cannot encode."""
@@ -167,8 +196,14 @@ def build_doc(spec):
     import datetime
     doc = odml.Document(author=u"Ren\u00e9 \u20ac \u4e2d" if spec.get("wide") else "auth", version="1.0")
     secs = []
+    # (round 5) objects that raise warnings, created before everything else
+    joined = add_bulk(doc, spec.get("lead"), "lead")
+    # (round 5) the Sections of the injections sit below a chain of faultless Sections
+    top = doc
+    for k in range(spec.get("depth") or 0):
+        top = odml.Section(name="c%d" % k, type="ct", parent=top)
     for i in range(spec.get("secs", 1)):
-        sec = odml.Section(name="s%d" % i, type="t%d" % i, parent=doc)
+        sec = odml.Section(name="s%d" % i, type="t%d" % i, parent=top)
         secs.append(sec)
         for j in range(spec.get("props", 1)):
             vals = [[1, 2], ["x", u"é y"], [1.5], [datetime.date(2020, 1, 2)], [True]][(i + j) % 5]
@@ -209,6 +244,11 @@ def build_doc(spec):
         # (the linking Section is not a place for injections: its Properties are copies that every
         #  Document.finalize - RDFWriter calls it - replaces by new ones)
         secs += [tgt, unnamed, deep]
+    # (round 5) objects that raise warnings, created after everything else; the last Section of the bulk can be
+    # one of the Sections the injections go to ('join')
+    joined = add_bulk(doc, spec.get("trail"), "trail") or joined
+    if joined is not None:
+        secs.append(joined)
     # (round 4) issues the document has before it is loaded / handed over, and the way it came into being:
     # through the API or read from a text in one of the formats (the writer does not validate a text)
     for i, wrn in enumerate(spec.get("pre_warns") or []):
@@ -228,6 +268,63 @@ def build_doc(spec):
         except Exception:                 # the text cannot be produced / read back: the API-built document
             pass
     return doc, secs
+
+
+def add_bulk(doc, bulk, tag):
+    """(round 5) bulk = {"n": N, "shape": s, "join": bool}: objects that raise N or more issues of rank warning
+    between them (and none of rank error). -> the last Section made when 'join' asks for it, else None."""
+    import odml
+    if not bulk or not bulk.get("n"):
+        return None
+    count, shape = bulk["n"], bulk.get("shape", "secs")
+    last = None
+
+    def holder(num):
+        return odml.Section(name="%s_h%d" % (tag, num), type="bt", parent=doc)
+
+    def make(kind, num, parent):
+        if kind == "secs":                # a Section with the default type
+            return odml.Section(name="%s_s%d" % (tag, num), parent=parent)
+        if kind == "props":               # a text value that looks like a number
+            odml.Property(name="%s_p%d" % (tag, num), values=[str(num)], parent=parent)
+        elif kind == "unnamed":           # a Property without a name
+            odml.Property(values=["u%d" % num], parent=parent)
+        elif kind == "card":              # fewer values than the cardinality asks for
+            prop = odml.Property(name="%s_c%d" % (tag, num), values=[num], parent=parent)
+            prop.val_cardinality = (2, None)
+        return parent
+
+    if shape == "secs":
+        for i in range(count):
+            last = make("secs", i, doc)
+    elif shape == "nested":
+        last = holder(0)
+        for i in range(count):
+            make("secs", i, last)
+    elif shape == "chain":
+        # untyped Sections one inside the other (not deeper than the interpreter's serialisers take), the rest
+        # side by side at the bottom
+        cur = doc
+        for i in range(count):
+            new = make("secs", i, cur)
+            if i < 25:
+                cur = new
+            last = new
+    elif shape == "mixed":
+        homes = {}
+        for i in range(count):
+            kind = ("secs", "props", "unnamed", "card")[i % 4]
+            if kind == "secs":
+                last = make(kind, i, doc)
+            else:
+                if kind not in homes:
+                    homes[kind] = holder(len(homes))
+                last = make(kind, i, homes[kind])
+    else:
+        last = holder(0)
+        for i in range(count):
+            make(shape, i, last)
+    return last if bulk.get("join") else None
 
 
 def apply_warn(doc, secs, wrn, num, undo):
@@ -467,15 +564,10 @@ def apply_payload(doc, secs, payload, undo):
         setattr(holder, attr, value)
 
 
-def inject(doc, secs, case, undo=None):
-    """Applies the 'invalid', 'warn', 'fault' and 'payload' parts of the case -> list of skipped injections.
-    `undo` collects closures that take the injections back (streams that keep using the document)."""
+def apply_invalid(doc, secs, inv, pick_index, undo, skipped, suffix=""):
+    """One of the ways of being invalid the property names, applied to the Section `pick_index` chooses."""
     import odml
-    skipped = []
-    if undo is None:
-        undo = []
-    inv = case.get("invalid")
-    pick = secs[case.get("pick", 0) % len(secs)] if secs else None
+    pick = secs[pick_index % len(secs)] if secs else None
     if inv and pick is None:
         skipped.append(inv)
     elif inv in ("notype", "emptytype"):
@@ -484,30 +576,30 @@ def inject(doc, secs, case, undo=None):
         pick.type = None if inv == "notype" else ""
     elif inv == "dupid":
         clone = pick.clone(keep_id=True)
-        clone.name = "clone_of_" + pick.name
+        clone.name = "clone_of_" + str(pick.name) + suffix
         holder = pick.parent
         holder.append(clone)
         undo.append(lambda: holder.remove(clone))
     elif inv == "dupid_far":
         # the two objects of one id sit in different branches, at different depths
         clone = pick.clone(keep_id=True)
-        clone.name = "clone_of_" + pick.name
+        clone.name = "clone_of_" + str(pick.name) + suffix
         others = [s for s in secs if s is not pick and s is not pick.parent
                   and all(a is not pick for a in _ancestors(s))]
         if others:
-            holder = others[case.get("pick", 0) % len(others)]
+            holder = others[pick_index % len(others)]
             holder.append(clone)
             undo.append(lambda: holder.remove(clone))
         else:
-            far = odml.Section(name="far", type="ft", parent=doc)
+            far = odml.Section(name="far" + suffix, type="ft", parent=doc)
             odml.Section(name="farther", type="ft", parent=far).append(clone)
             undo.append(lambda: doc.remove(far))
     elif inv == "dupid_prop":
         # only two Properties share an id, in cousin Sections
         if pick.properties:
             pclone = pick.properties[0].clone(keep_id=True)
-            pclone.name = "clone_of_" + pclone.name
-            far = odml.Section(name="far", type="ft", parent=doc)
+            pclone.name = "clone_of_" + str(pclone.name) + suffix
+            far = odml.Section(name="far" + suffix, type="ft", parent=doc)
             odml.Section(name="farther", type="ft", parent=far).append(pclone)
             undo.append(lambda: doc.remove(far))
         else:
@@ -529,6 +621,22 @@ def inject(doc, secs, case, undo=None):
             undo.append(lambda: _remove_identical(holder._sections, extra))
         except Exception:
             skipped.append(inv)
+
+
+def inject(doc, secs, case, undo=None):
+    """Applies the 'invalid', 'warn', 'fault' and 'payload' parts of the case -> list of skipped injections.
+    `undo` collects closures that take the injections back (streams that keep using the document)."""
+    import odml
+    skipped = []
+    if undo is None:
+        undo = []
+    apply_invalid(doc, secs, case.get("invalid"), case.get("pick", 0), undo, skipped)
+    # (round 5) further ways of being invalid at the same time, each with a Section of its own choice
+    for kind, where in case.get("more_invalid") or []:
+        try:
+            apply_invalid(doc, secs, kind, where, undo, skipped, suffix="_%d" % where)
+        except Exception:                 # the library refuses the edit on top of the first one
+            skipped.append(kind)
     if case.get("warn"):
         untyped = odml.Section(name="untyped", parent=doc)          # default type "n.s." -> warning
         undo.append(lambda: doc.remove(untyped))
@@ -664,7 +772,8 @@ class C07(fw.Check):
         "legacy_open_first_truncates", "legacy_frame_false", "witness_now_harmless",
         "legacy_harm_exact", "save_path_spec", "save_path_examples", "saveW_refines",
         "saveW_invalid_never_written", "saveW_harm_exact", "saveW_frame", "write_failure_truncates",
-        "nonblocking_rules_rank_warning", "warning_rule_issues_written", "blocking_rule_issue_refused"]]
+        "nonblocking_rules_rank_warning", "warning_rule_issues_written", "blocking_rule_issue_refused",
+        "error_anywhere_never_written", "failed_save_keeps_completed_name", "resave_failure_keeps_first_save"]]
     trusted_base = [
         "Lean 4.33.0 kernel; axioms propext, Classical.choice, Quot.sound only (audited per theorem)",
         "hand-written model lean/OdmlModel/Model/FS.lean, tied to the repository by this correspondence run",
@@ -832,7 +941,8 @@ class C07(fw.Check):
             for st in steps:
                 st["backend"] = st["backend"].upper()
             cases.append({"stream": "locale", "steps": steps})
-        return cases + self.generate_round2(tier, rng, lmodes) + self.generate_round4(tier, rng, lmodes)
+        return cases + self.generate_round2(tier, rng, lmodes) + self.generate_round4(tier, rng, lmodes) \
+            + self.generate_round5(tier, rng)
 
     def generate_round2(self, tier, rng, lmodes):
         """Streams added after seeded round 2 (see design.d/C07.md)."""
@@ -1109,6 +1219,235 @@ class C07(fw.Check):
             cases.append({"stream": "registry", "hashseed": (0, 1, 4242, "random")[c % 4], "steps": steps})
         return cases
 
+    def bulk(self, rng, count=None, shape=None, join=None):
+        return {"n": count if count is not None else rng.choice(BULK_COUNTS),
+                "shape": shape or rng.choice(BULK_SHAPES),
+                "join": (rng.random() < 0.3) if join is None else join}
+
+    def failing(self, rng, mode, k):
+        """A reason for the save to fail that fits the mode: k rotates through a way of being invalid (where the
+        entry point validates), a text / object the serialiser refuses, a validation that itself raises."""
+        relevant = {"XML": ["ctrl_value", "nul_author", "surrogate_value"], "JSON": ["obj_author", "gen_author"],
+                    "YAML": ["gen_author"], "RDF": ["surrogate_value"]}[mode[1].upper()]
+        ways = []
+        if mode[0] in ("fileio", "odmlwriter"):
+            ways += [{"invalid": INVALID_KINDS[k % len(INVALID_KINDS)], "pick": k}]
+        ways += [{"fault": relevant[k % len(relevant)]}, {"fault": "validation_crash"}]
+        return ways[k % len(ways)]
+
+    def generate_round5(self, tier, rng):
+        """Streams added after seeded round 5 (see design.d/C07.md): how many issues a document has and where the
+        error sits among them; where earlier data sits relative to the path handed in; relative paths; several
+        ways of being invalid at once; depth; a writer reused for other documents; objects that are no Document."""
+        cases = []
+        quick = tier == "quick"
+        base = {"doc": {"secs": 1, "props": 2, "nested": False}, "pick": 0, "warn": False, "filter": "default",
+                "name": "f.out", "invalid": None, "fault": None, "custom_template": None}
+        all_modes = modes()
+        validating = [m for m in all_modes if m[0] in ("fileio", "odmlwriter")]
+        core = [m for m in validating if m[2] in (None, "turtle")]                # 2 entries x 5 serialisers
+        counts = BULK_COUNTS if quick else BULK_COUNTS + BULK_COUNTS_THOROUGH
+        n = 0
+        # (a) N issues of rank warning in front of / behind / around the one error, every shape of bulk x every
+        #     count, the way of being invalid, the serialiser and the target state rotating; and the same
+        #     documents without the error (written, warning reported)
+        for count in counts:
+            for shape in BULK_SHAPES:
+                if count > 300 and shape not in ("secs", "props", "mixed"):
+                    continue
+                n += 1
+                mode = (core if quick else validating)[(n * 3) % len(core if quick else validating)]
+                inv = INVALID_KINDS[n % len(INVALID_KINDS)]
+                doc = {"secs": 1 + n % 2, "props": 1 + (n // 2) % 2, "nested": n % 3 == 0,
+                       "lead": self.bulk(rng, count, shape, join=n % 4 == 0)}
+                cases.append(self.one(rng, mode, **dict(base, doc=doc, invalid=inv, pick=n,
+                                                        target=("old", "absent")[n % 2])))
+                if n % 2:
+                    where = {"lead": None, "trail": self.bulk(rng, count, shape, join=n % 3 == 0)}
+                    if n % 4 == 1:
+                        where["lead"] = self.bulk(rng, shape=shape, join=False)
+                    mode2 = core[(n * 7 + 1) % len(core)]
+                    cases.append(self.one(rng, mode2, **dict(base, doc=dict(doc, **where),
+                                                             invalid=INVALID_KINDS[(n + 3) % len(INVALID_KINDS)],
+                                                             pick=n, target=("old", "absent")[(n // 2) % 2])))
+                if n % 3 == 0:
+                    mode3 = core[(n * 5 + 2) % len(core)]
+                    cases.append(self.one(rng, mode3, **dict(base, doc=dict(doc, lead=dict(doc["lead"], join=False)),
+                                                             target=("old", "absent")[(n // 3) % 2])))
+        # the largest documents of the quick tier: once per shape that puts one issue on one object
+        if quick:
+            for i, shape in enumerate(("secs", "props")):
+                doc = {"secs": 1, "props": 1, "nested": False, "lead": self.bulk(rng, 1000, shape, join=False)}
+                cases.append(self.one(rng, core[(3 + i * 5) % len(core)],
+                                      **dict(base, doc=doc, invalid=("notype", "dupprop")[i], target="old")))
+        # every way of being invalid x every validating mode behind a bulk that a round number would cut off
+        for i, mode in enumerate(validating):
+            if quick and mode[2] not in (None, "turtle", "nt", "json-ld", "bogus"):
+                continue
+            for j, inv in enumerate(INVALID_KINDS):
+                if quick and (i + j) % 3:
+                    continue
+                doc = {"secs": 2, "props": 1, "nested": (i + j) % 2 == 0,
+                       "lead": self.bulk(rng, (21, 51, 101, 33)[(i + j) % 4], BULK_SHAPES[(i * 3 + j) % len(BULK_SHAPES)],
+                                         join=False)}
+                cases.append(self.one(rng, mode, **dict(base, doc=doc, invalid=inv, pick=i + j,
+                                                        target=("old", "absent")[(i + j) % 2])))
+        # (b) depth: the Sections of the injections below a chain of faultless Sections
+        for i, depth in enumerate(DEPTHS):
+            for j, inv in enumerate(INVALID_KINDS + (None,)):
+                mode = core[(i * 3 + j) % len(core)]
+                doc = {"secs": 1 + (i + j) % 2, "props": 1, "nested": j % 2 == 0, "depth": depth}
+                if (i + j) % 3 == 0:
+                    doc["lead"] = self.bulk(rng, join=False)
+                cases.append(self.one(rng, mode, **dict(base, doc=doc, invalid=inv, pick=j,
+                                                        target=("old", "absent")[(i + j) % 2])))
+        # (c) two and three ways of being invalid at once
+        for i, first in enumerate(INVALID_KINDS):
+            for j, second in enumerate(INVALID_KINDS):
+                if j <= i:
+                    continue
+                mode = core[(i * 7 + j) % len(core)]
+                more = [[second, j]]
+                if (i + j) % 4 == 0:
+                    more.append([INVALID_KINDS[(i + j + 2) % len(INVALID_KINDS)], i + 1])
+                    more = [m for m in more if m[0] not in (first,)]
+                doc = {"secs": 2, "props": 2, "nested": True}
+                cases.append(self.one(rng, mode, **dict(base, doc=doc, invalid=first, pick=i, more_invalid=more,
+                                                        target=("old", "absent")[(i + j) % 2])))
+        # (d) where earlier data sits relative to the path handed in x every mode x {good save, a failing one for
+        #     each kind of reason} x names that are / are not completed by the entry point
+        names = ("f", "f", "f.out", "x.y:f", "d.1/f", ".hidden", "g", "f.")
+        n = 0
+        for mode in all_modes:
+            if quick and mode[0] == "odmlwriter" and mode[2] not in (None, "turtle", "bogus"):
+                continue
+            for target in DERIVED_TARGETS:
+                for variant in range(3):
+                    n += 1
+                    extra = {} if variant == 0 else self.failing(rng, mode, n)
+                    case = self.one(rng, mode, **dict(base, target=target, name=names[n % len(names)], **extra))
+                    if case["entry"] == "fileio" and n % 3 == 0:
+                        case["name"] = "f"
+                    cases.append(case)
+        # (e) relative paths (the working directory is the private directory of the case)
+        some = [m for m in all_modes if m[2] in (None, "turtle", "bogus")]
+        for i, mode in enumerate(some):
+            for j, kind in enumerate(REL_PATHS):
+                for k, target in enumerate(("absent", "old", "old_derived", "missing_dir")):
+                    if quick and (i + j + k) % 2:
+                        continue
+                    extra = {} if (i + j + k) % 4 < 2 else self.failing(rng, mode, i + j + k)
+                    cases.append(self.one(rng, mode, **dict(base, target=target, path_kind=kind,
+                                                            name=("f", "f.out", "d.1/f", "g")[(i + j + k) % 4],
+                                                            **extra)))
+        # (f) histories: a name the entry point completes is saved under again and again (one spelling of the
+        #     backend per history, so that the saves meet at one derived path), also under the completed name
+        #     itself; a good save first, then good and failing ones
+        hist_modes = [m for m in all_modes if m[0] in ("fileio", "rdfwriter") and m[2] in (None, "turtle", "xml", "nt")]
+        for i in range(60 if quick else 1500):
+            mode = hist_modes[i % len(hist_modes)]
+            spelling = (mode[1].lower(), mode[1], mode[1].capitalize())[(i // len(hist_modes)) % 3] \
+                if mode[0] == "fileio" else mode[1]
+            stem = ("f", "g", "x.y:f")[i % 3]
+            reuse = i % 2 == 1 and mode[0] == "fileio"
+            doc = {"secs": rng.choice([1, 2]), "props": rng.choice([1, 2]), "nested": rng.random() < 0.4}
+            steps = []
+            for k in range(rng.randrange(2, 5)):
+                m = mode
+                name = stem
+                if mode[0] == "fileio" and k and rng.random() < 0.3:
+                    # the completed name, given in full to the writer the entry point uses
+                    m, name = ("odmlwriter", mode[1], mode[2]), "%s.%s" % (stem, spelling)
+                extra = {} if k == 0 or rng.random() < 0.35 else self.failing(rng, m, rng.randrange(50))
+                st = self.one(rng, m, **dict(base, doc=doc, name=name, **extra))
+                st["target"] = "keep" if k == 0 or rng.random() < 0.85 else "missing_dir"
+                st["backend"] = spelling if m[0] == "fileio" else m[1]
+                if reuse and k and rng.random() < 0.3:
+                    st["newdoc"] = True
+                steps.append(self.settle(st))
+            cases.append({"stream": "reuse" if reuse else "history", "steps": steps})
+        # (g) one writer object, another document for each save (a valid one, an invalid one, a valid one ...)
+        reusable = [m for m in all_modes if m[0] == "odmlwriter" and m[2] in (None, "turtle", "bogus")] + \
+            [("xmlwriter", "XML", None), ("rdfwriter", "RDF", "turtle")]
+        for i in range(30 if quick else 600):
+            mode = reusable[i % len(reusable)]
+            steps = []
+            for k in range(rng.randrange(2, 5)):
+                doc = {"secs": rng.choice([1, 2]), "props": rng.choice([1, 2]), "nested": rng.random() < 0.4}
+                if rng.random() < 0.3:
+                    doc["lead"] = self.bulk(rng)
+                extra = {} if (i + k) % 2 == 0 else self.failing(rng, mode, i + k)
+                st = self.one(rng, mode, **dict(base, doc=doc, name=rng.choice(["f.out", "g.out", "f"]), **extra))
+                st["target"] = rng.choice(["keep", "keep", "keep", "missing_dir"])
+                st["backend"] = mode[1]
+                st["newdoc"] = True
+                steps.append(self.settle(st))
+            cases.append({"stream": "reuse", "steps": steps})
+        # (h) what is saved is not a Document (oracle-only): a Section of the document, a Section without one, a
+        #     Property, None, a text, a dictionary, a list
+        some = [m for m in all_modes if m[2] in (None, "turtle")]
+        for i, kind in enumerate(OBJ_KINDS):
+            for j, mode in enumerate(some):
+                if quick and (i + j) % 2:
+                    continue
+                cases.append(self.one(rng, mode, **dict(base, obj_kind=kind, name=("f.out", "f")[(i + j) % 2],
+                                                        target=("old", "absent", "old_derived")[(i + j) % 3])))
+        # (j) the earlier data is the document itself: saved while it was fine, read back, edited, saved again
+        n = 0
+        for mode in all_modes:
+            if quick and mode[2] not in (None, "turtle", "nt", "bogus"):
+                continue
+            for variant in range(3):
+                n += 1
+                extra = {} if variant == 0 else self.failing(rng, mode, n)
+                doc = {"secs": 1 + n % 2, "props": 2, "nested": n % 3 == 0}
+                if n % 5 == 0:
+                    doc["lead"] = self.bulk(rng, join=False)
+                case = self.one(rng, mode, **dict(base, doc=doc, target="old_self", name=("f.out", "f", "g")[n % 3],
+                                                  **extra))
+                if variant == 0 and n % 2:
+                    case["warns"] = [self.warn(rng)]
+                cases.append(case)
+        # (k) targets that cannot be written: a name the file system refuses, a link to a device that is full
+        n = 0
+        for mode in all_modes:
+            if quick and mode[2] not in (None, "turtle", "bogus"):
+                continue
+            for target in UNWRITABLE_TARGETS:
+                for variant in range(2):
+                    n += 1
+                    extra = {} if variant == 0 else self.failing(rng, mode, n)
+                    cases.append(self.one(rng, mode, **dict(base, target=target, name=("f.out", "f")[n % 2], **extra)))
+        # (i) random draws over the product of everything, old and new
+        for i in range(200 if quick else 9000):
+            case = self.wide_one(rng, rng.choice(validating) if i % 3 else None)
+            roll = rng.random
+            doc = dict(case["doc"])
+            if roll() < 0.5:
+                doc["lead"] = self.bulk(rng)
+            if roll() < 0.25:
+                doc["trail"] = self.bulk(rng)
+            if roll() < 0.2:
+                doc["depth"] = rng.choice(DEPTHS)
+            if doc.get("rich") and (doc.get("lead") or doc.get("trail")):
+                # (the copies a linking Section holds are made anew by every look at the document: the two
+                #  dimensions are drawn separately)
+                doc.pop("rich")
+            case["doc"] = doc
+            if case.get("invalid") and roll() < 0.25:
+                other = rng.choice([k for k in INVALID_KINDS if k != case["invalid"]])
+                case["more_invalid"] = [[other, rng.randrange(6)]]
+            if roll() < 0.3 and case["target"] in ("absent", "old"):
+                case["target"] = rng.choice(DERIVED_TARGETS + UNWRITABLE_TARGETS + ("old_self",))
+            if roll() < 0.2 and not case.get("path_kind"):
+                case["path_kind"] = rng.choice(REL_PATHS)
+            if i % 4 == 0:
+                case["fault"] = None
+                if not case.get("invalid"):
+                    case["invalid"] = rng.choice(INVALID_KINDS)
+            cases.append(self.settle(case))
+        return cases
+
     # -- implementation ------------------------------------------------------
     def impl_locale(self, case):
         code = ("import sys, json; sys.path.insert(0, %r); import c07; "
@@ -1194,6 +1533,22 @@ class C07(fw.Check):
         if target in ("old", "old_long"):
             with io.open(path, "w") as fh:
                 fh.write(u"OLD" if target == "old" else LONG_OLD)
+        elif target in DERIVED_TARGETS:
+            # (round 5) earlier data at the paths a save derives from the given one and at names next to it; the
+            # given path itself is absent / holds other data / is an empty file
+            for cand in self.candidates(path, case)[1:] + self.neighbours(path, case):
+                if not os.path.lexists(cand):
+                    with io.open(cand, "w") as fh:
+                        fh.write(u"OLD")
+            if target != "old_derived":
+                with io.open(path, "w") as fh:
+                    fh.write(u"SENTINEL" if target == "old_both" else u"")
+        elif target == "long_name":
+            path = os.path.join(root, os.path.dirname(name), LONG_NAME + os.path.basename(name))
+        elif target == "link_devfull" and os.path.exists("/dev/full"):
+            for cand in self.candidates(path, case):
+                if not os.path.lexists(cand):
+                    os.symlink("/dev/full", cand)
         elif target == "missing_dir":
             path = os.path.join(root, "nodir", name)
         elif target == "is_dir":
@@ -1214,12 +1569,24 @@ class C07(fw.Check):
                 if not os.path.lexists(cand):
                     os.symlink(dest, cand)
                 links.append(os.path.relpath(dest, root))
+        if ctx is not None and case.get("newdoc"):
+            # (round 5) the writer object lives on, the document is a new one (a writer bound to its document
+            # goes with it)
+            ctx.pop("doc", None)
+            if case["entry"] in ("xmlwriter", "rdfwriter"):
+                ctx.pop("writer", None)
         if ctx is not None and "doc" in ctx:
             doc, secs = ctx["doc"], ctx["secs"]
         else:
             doc, secs = build_doc(case["doc"])
             if ctx is not None:
                 ctx["doc"], ctx["secs"] = doc, secs
+        if target == "old_self" and ctx is None:
+            doc, secs = self.save_first(case, root, path, doc, secs)
+            try:
+                doc.version = "2.0"       # work went on: the text of the document is no longer what the file holds
+            except Exception:
+                pass
         undo = []
         skipped = inject(doc, secs, case, undo)
         if case.get("repository") and secs:
@@ -1286,7 +1653,23 @@ class C07(fw.Check):
             path_arg = pathlib.Path(path)
         elif case.get("path_kind") == "bytes":
             path_arg = os.fsencode(path)
+        elif case.get("path_kind") in REL_PATHS:
+            # (round 5) a text relative to the working directory (the private directory of the case)
+            path_arg = os.path.relpath(path, root)
+            if case["path_kind"] == "relative_dot":
+                path_arg = "./" + path_arg
+            elif case["path_kind"] == "relative_up":
+                path_arg = "../%s/%s" % (os.path.basename(root), path_arg)
         obs = {"skipped": skipped, "path": path, "links": links}
+        # (round 5) what is handed to the save in place of the Document
+        obj = doc
+        if case.get("obj_kind"):
+            first = doc.sections[0] if len(doc.sections) else None
+            obj = {"section": lambda: first, "detached_section": lambda: odml.Section(name="loose", type="lt"),
+                   "property": lambda: first.properties[0] if first is not None else None,
+                   "none": lambda: None, "str": lambda: "not a document", "dict": lambda: {"Document": {}},
+                   "list_of_docs": lambda: [doc]}[case["obj_kind"]]()
+            doc = obj
         # the writer objects of a 'reuse' case live as long as the case
         reused = ctx if ctx is not None else {}
         with warning_filter(case["filter"]):
@@ -1327,6 +1710,9 @@ class C07(fw.Check):
                 obs["validate"] = {"ok": [e.rank for e in issues]}
                 # the registered rule each issue comes from (for the model's table of rule ranks)
                 obs["issue_rules"] = [self.rule_of(e) for e in issues]
+                # (round 5) how many issues stand in front of the first error (evidence only)
+                obs["first_error_at"] = ([e.rank for e in issues] + ["error"]).index("error") \
+                    if any(e.rank == "error" for e in issues) else None
             except Exception as exc:
                 obs["validate"] = {"raise": fw.exc_name(exc)}
             # (round 4) the ways of being invalid the property names, looked for without odml.validation
@@ -1338,23 +1724,20 @@ class C07(fw.Check):
             except TypeError:             # an unhashable rdf_format
                 obs["format_known"] = False
         before = snapshot(root)
+        cwd = None
+        if case.get("path_kind") in REL_PATHS:
+            cwd = os.getcwd()
+            os.chdir(root)
         with warning_filter(case["filter"]) as rec:
             try:
-                if entry == "fileio":
-                    odml.save(doc, path_arg, backend, **kwargs)
-                elif entry == "odmlwriter":
-                    (reused.get("writer") or ODMLWriter(backend)).write_file(doc, path_arg, **kwargs)
-                elif entry == "xmlwriter":
-                    xkw = dict((k, v) for k, v in kwargs.items() if k in ("local_style", "custom_template"))
-                    if case.get("custom_template") is not None:
-                        xkw["custom_template"] = self.template(case["custom_template"])
-                    (reused.get("writer") or XMLWriter(doc)).write_file(path_arg, **xkw)
-                else:
-                    (reused.get("writer") or RDFWriter(doc)).write_file(path_arg, fmt)
+                self.do_save(case, doc, path_arg, reused)
                 obs["outcome"] = "ok"
             except Exception as exc:
                 obs["outcome"] = fw.exc_name(exc)
                 obs["is_parser_exception"] = self.is_parser_exception(exc)
+            finally:
+                if cwd is not None:
+                    os.chdir(cwd)
             obs["warned"] = len([w for w in rec if issubclass(w.category, UserWarning)])
         after = snapshot(root)
         obs["before"], obs["after"] = before, after
@@ -1369,7 +1752,8 @@ class C07(fw.Check):
         if obs["outcome"] == "ok" and len(changed) == 1 and case.get("fault") is None and not raw_values \
                 and case.get("invalid") is None and case.get("custom_template") is None and plain_payload \
                 and not (case.get("opts") or {}).get("custom_template") and isinstance(backend, str) \
-                and (isinstance(fmt, str) or fmt is None) and ctx is None and not case.get("register"):
+                and (isinstance(fmt, str) or fmt is None) and ctx is None and not case.get("register") \
+                and not case.get("obj_kind") and not case.get("more_invalid"):
             obs["loads"] = self.loads_back(os.path.join(root, changed[0]), entry, backend, fmt, doc,
                                            shape_only=bool(case["doc"].get("rich")))
         obs["root"] = root
@@ -1380,6 +1764,53 @@ class C07(fw.Check):
                     with io.open(os.path.join(root, rel), "w") as fh:
                         fh.write(u"OLD")
         return obs
+
+    def do_save(self, case, doc, path_arg, reused):
+        """The save of the case through its entry point."""
+        import odml
+        from odml.tools.odmlparser import ODMLWriter
+        from odml.tools.xmlparser import XMLWriter
+        from odml.tools.rdf_converter import RDFWriter
+        entry, fmt = case["entry"], case["rdf_format"]
+        backend = self.decode_backend(case["backend"])
+        kwargs = self.save_kwargs(case)
+        if "rdf_format" in kwargs:
+            fmt = kwargs["rdf_format"]
+        if entry == "fileio":
+            odml.save(doc, path_arg, backend, **kwargs)
+        elif entry == "odmlwriter":
+            (reused.get("writer") or ODMLWriter(backend)).write_file(doc, path_arg, **kwargs)
+        elif entry == "xmlwriter":
+            xkw = dict((k, v) for k, v in kwargs.items() if k in ("local_style", "custom_template"))
+            if case.get("custom_template") is not None:
+                xkw["custom_template"] = self.template(case["custom_template"])
+            (reused.get("writer") or XMLWriter(doc)).write_file(path_arg, **xkw)
+        else:
+            (reused.get("writer") or RDFWriter(doc)).write_file(path_arg, fmt)
+
+    def save_first(self, case, root, path, doc, secs):
+        """(round 5, target 'old_self') The document as built is saved through the entry point of the case and,
+        where the format has a reader, read back from the file: -> the document to go on with."""
+        import odml
+        pre = snapshot(root)
+        try:
+            with warning_filter("ignore"):
+                self.do_save(dict(case, custom_template=None, opts=None), doc, path, {})
+        except Exception:                 # nothing could be saved in the first place: the target stays absent
+            return doc, secs
+        post = snapshot(root)
+        written = [k for k in post if post[k] != pre.get(k, "<absent>") and not k.endswith(("/", "@"))]
+        backend = str(case["backend"]).upper()
+        if len(written) == 1 and backend in ("XML", "JSON", "YAML"):
+            try:
+                loaded = odml.load(os.path.join(root, written[0]), backend, show_warnings=False)
+                kept = [sec for sec in loaded.itersections(recursive=True)
+                        if not any(getattr(a, "link", None) for a in [sec] + _ancestors(sec))]
+                if kept:
+                    return loaded, kept
+            except Exception:
+                pass
+        return doc, secs
 
     @staticmethod
     def rule_of(issue):
@@ -1403,6 +1834,13 @@ class C07(fw.Check):
             except ImportError:
                 pass
         return out
+
+    @staticmethod
+    def neighbours(path, case):
+        """Names next to the target's that a save has no business with."""
+        backend = case["backend"] if isinstance(case["backend"], str) and case["backend"][:1] != "<" else "xml"
+        out = [path + "." + backend.lower(), path + ".tmp", path + "~"]
+        return [p for p in out if p != path]
 
     @staticmethod
     def is_parser_exception(exc):
@@ -1443,7 +1881,7 @@ class C07(fw.Check):
         blocked = []
         dirs = [os.path.join(root, rel[:-1]) for rel in obs["before"] if rel.endswith("/")]
         blocked += dirs
-        if case["target"] == "missing_dir":
+        if case["target"] in ("missing_dir", "long_name"):
             blocked += self.candidates(obs["path"], case)
         render = obs["render"]
         serialize = render
@@ -1477,7 +1915,15 @@ class C07(fw.Check):
     def modelled(case, obs):
         # outside the model's alphabet (the oracle alone decides these): a path that is not a text, symbolic
         # links, a backend name that is not a text, an rdf_format object handed to RDFWriter itself
-        if case.get("path_kind", "str") != "str" or case["target"] in LINK_TARGETS:
+        if case["target"] in LINK_TARGETS or case["target"] == "link_devfull":
+            return False
+        if case.get("path_kind") == "relative" and "." not in obs.get("root", ".") and ":" not in obs.get("root", ":"):
+            # (round 5) a plain relative path: the rule of odml.save for completing a name looks at the whole
+            # text for a '.', which gives the same answer for the absolute path when the directory has none
+            pass
+        elif case.get("path_kind", "str") != "str":
+            return False
+        if case.get("obj_kind"):                 # (round 5) not a Document: the frame clause of the oracle decides
             return False
         if case["filter"] == "error_all":       # any module's warning may raise anywhere
             return False
@@ -1538,11 +1984,17 @@ class C07(fw.Check):
                 supported = case["backend"].upper() in SUPPORTED_PARSERS and case["backend"][:1] != "<"
             except ImportError:
                 pass
+        if case.get("obj_kind"):
+            # (round 5) what is saved is not a Document: the property's statements about documents (clauses 1, 4,
+            # 5) are not applied - weaker reading -, "whenever a save raises ... no file is harmed" is
+            validates = False
         ranks = obs["validate"].get("ok")
         # (round 4) a rule of rank error registered by the user makes every document invalid
         custom_error = any(k in REGISTER_ERRORS for k in case.get("register") or [])
-        invalid = ((case.get("invalid") in INVALID_KINDS and case["invalid"] not in obs["skipped"]
-                    or custom_error) and "raise" not in obs["validate"]) \
+        # (round 5) several ways of being invalid at once
+        injected = [k for k in [case.get("invalid")] + [m[0] for m in case.get("more_invalid") or []]
+                    if k in INVALID_KINDS and k not in obs["skipped"]]
+        invalid = ((bool(injected) or custom_error) and "raise" not in obs["validate"]) \
             or (ranks is not None and "error" in ranks)
         failed = obs["outcome"] != "ok"
         # 1. an invalid document is never written: ParserException for every format
@@ -1550,7 +2002,7 @@ class C07(fw.Check):
             if not failed:
                 out.append("invalid document (%s, issues %s) was saved by %s/%s without an exception"
                            % (case.get("invalid"), ranks, entry, case["backend"]))
-            elif not obs.get("is_parser_exception") and case.get("path_kind", "str") == "str" \
+            elif not obs.get("is_parser_exception") and case.get("path_kind", "str") in TEXT_PATHS \
                     and case["filter"] != "error_all":
                 # (odml.save looks at a path that is not a text before it validates; with every warning an
                 #  error anything may raise first: weaker reading, the document must just not be written)
@@ -1586,8 +2038,8 @@ class C07(fw.Check):
         # 4. a document with warnings only (or none) whose text can be rendered is written,
         #    and the warnings are reported
         if validates and supported and ranks is not None and "error" not in ranks and not invalid \
-                and "ok" in obs["render"] and case["target"] in ("absent", "old", "old_long", "keep") + LINK_TARGETS \
-                and case["filter"] in ("default", "ignore") and case.get("path_kind", "str") == "str":
+                and "ok" in obs["render"] and case["target"] in OPENABLE + LINK_TARGETS \
+                and case["filter"] in ("default", "ignore") and case.get("path_kind", "str") in TEXT_PATHS:
             # (a path that is not a text - pathlib.Path, bytes - may be refused: weaker reading)
             if failed:
                 out.append("document without validation errors was not saved: %s" % obs["outcome"])
@@ -1601,10 +2053,10 @@ class C07(fw.Check):
         #    is demanded when the independent look finds anything, could not be taken, the validation raised, the
         #    text cannot be rendered or the target cannot be opened.
         if validates and supported and obs.get("indep_invalid") == [] and not custom_error \
-                and (not case.get("invalid") or case["invalid"] in obs["skipped"]) \
+                and not injected \
                 and ranks is not None and "error" in ranks \
-                and "ok" in obs["render"] and case["target"] in ("absent", "old", "old_long", "keep") + LINK_TARGETS \
-                and case["filter"] in ("default", "ignore") and case.get("path_kind", "str") == "str" and failed:
+                and "ok" in obs["render"] and case["target"] in OPENABLE + LINK_TARGETS \
+                and case["filter"] in ("default", "ignore") and case.get("path_kind", "str") in TEXT_PATHS and failed:
             rules = sorted(set(r for r, k in zip(obs.get("issue_rules") or [], ranks) if k == "error"))
             out.append("document with none of the ways of being invalid the property names (no missing Section "
                        "type / required name, no duplicate id, no duplicate sibling name) was refused: %s; the "
@@ -1639,9 +2091,23 @@ class C07(fw.Check):
             cls = "render-raised"
         else:
             cls = "raised-other"
-        nt = oc != "ok" or case["target"] in ("old", "old_long", "link_old") or bool(obs.get("warned"))
+        nt = oc != "ok" or case["target"] in ("old", "old_long", "link_old", "old_both", "old_empty", "old_self") \
+            or bool(obs.get("warned"))
         extra = ""
-        if case.get("warns") or case["doc"].get("pre_warns") or case["doc"].get("via") or case.get("pre"):
+        doc_spec = case["doc"]
+        if doc_spec.get("lead") or doc_spec.get("trail") or doc_spec.get("depth") or case.get("more_invalid"):
+            at = obs.get("first_error_at")
+            extra = ":bulk" if at is None else ":bulk-error-behind-%s" % (
+                "0" if at == 0 else "1-19" if at < 20 else "20-99" if at < 100 else "100+")
+        elif case["target"] in DERIVED_TARGETS:
+            extra = ":derived-path"
+        elif case["target"] in UNWRITABLE_TARGETS + ("old_self",):
+            extra = ":" + case["target"]
+        elif case.get("path_kind") in REL_PATHS:
+            extra = ":relative-path"
+        elif case.get("obj_kind"):
+            extra = ":no-document"
+        elif case.get("warns") or case["doc"].get("pre_warns") or case["doc"].get("via") or case.get("pre"):
             kinds = [w["kind"] for w in (case.get("warns") or []) + (case["doc"].get("pre_warns") or [])]
             extra = ":warn-rules" if any(k in WARN_KINDS for k in kinds) else ":round4"
         elif case.get("payload"):
